@@ -9,10 +9,12 @@ mod tree;
 mod universe;
 #[path = "../c07_wit.rs"]
 mod witgen;
+#[path = "../c07_resources.rs"]
+mod resources;
 
 use std::collections::HashSet;
 use tree::*;
-use wac_types::{CoreExtern, ItemKind, SubtypeChecker, Types};
+use wac_types::{CoreExtern, DefinedType, ItemKind, Resource, SubtypeChecker, Type, Types, ValueType};
 use wacv::*;
 
 fn b(x: bool) -> String {
@@ -207,6 +209,45 @@ fn memo_case(out: &mut Out, r: &mut Rng, pool: &[D]) {
     out.case(true, "memo", &fields);
 }
 
+/// resource-bearing kinds: every ordered pair of `resources::pool()`, and a hand-built collection
+/// in which two distinct resources share a name (the checker compares names: accepted)
+fn resource_cases(out: &mut Out, r: &mut Rng, shard: usize, nshards: usize) {
+    let pool = resources::pool();
+    if shard == 0 {
+        out.add("res:pool-size", pool.len() as u64);
+    }
+    let mut idx = 0usize;
+    for a in &pool {
+        for bd in &pool {
+            idx += 1;
+            if idx % nshards != shard {
+                continue;
+            }
+            let mode = r.below(3);
+            out.count(&format!("res:mode:{mode}"));
+            pair_case(out, a, bd, mode, false);
+        }
+    }
+    if shard == 0 {
+        let mut t = Types::default();
+        let r0 = t.add_resource(Resource { name: "r".to_string(), alias: None });
+        let r1 = t.add_resource(Resource { name: "r".to_string(), alias: None });
+        let l0 = t.add_defined_type(DefinedType::List(ValueType::Own(r0)));
+        let l1 = t.add_defined_type(DefinedType::List(ValueType::Own(r1)));
+        let pairs = [
+            (ItemKind::Value(ValueType::Own(r0)), ItemKind::Value(ValueType::Own(r1))),
+            (ItemKind::Value(ValueType::Borrow(r1)), ItemKind::Value(ValueType::Borrow(r0))),
+            (ItemKind::Value(ValueType::Defined(l0)), ItemKind::Value(ValueType::Defined(l1))),
+            (ItemKind::Type(Type::Resource(r0)), ItemKind::Type(Type::Resource(r1))),
+            (ItemKind::Type(Type::Resource(r0)), ItemKind::Type(Type::Resource(r0))),
+        ];
+        for (ka, kb) in pairs {
+            out.count("res:duplicate-name");
+            pair_case_built(out, &t, ka, None, kb, None, false, true);
+        }
+    }
+}
+
 fn generate(args: &Args, seed: u64, thorough: bool, shard: usize, nshards: usize, path: &str) {
     let mut r = Rng::new(seed ^ ((shard as u64).wrapping_mul(0x9E37_79B9)));
     let tier = if thorough { "t" } else { "q" };
@@ -251,6 +292,9 @@ fn generate(args: &Args, seed: u64, thorough: bool, shard: usize, nshards: usize
     for _ in 0..narg {
         witgen::arg_case(&mut out, &mut r);
     }
+    // 5. the resource clause: all ordered pairs of the resource-bearing pool in a random build
+    //    mode (one collection: resource names injective; two collections: a shared name is not)
+    resource_cases(&mut out, &mut r, shard, nshards);
     out.finish();
 }
 
